@@ -31,6 +31,18 @@ class _ContextFinder(DefaultVisitor):
     def _visit_context(self, stmt: ContextStmt, ctx: bool):
         return super()._visit_context(stmt, False)
 
+    def _reads_local(self, e: Expr) -> bool:
+        """Whether *e* mentions a variable the function binds itself: hoisted
+        to the top, it would run before that binding."""
+        found: list[Var] = []
+
+        class _Vars(DefaultVisitor):
+            def _visit_var(self, e: Var, ctx):
+                found.append(e)
+
+        _Vars()._visit_expr(e, None)
+        return any(v.name not in self.func.free_vars for v in found)
+
     def _visit_expr(self, e: Expr, ctx: bool) -> Expr:
         # check if we know an expression evaluates
         # statically to a context; if so, we can lift it
@@ -40,6 +52,7 @@ class _ContextFinder(DefaultVisitor):
                 isinstance(v, Context)
                 and not isinstance(e, Var)
                 and not isinstance(e, ForeignVal)
+                and not self._reads_local(e)
             ):
                 self.ctx_exprs.append(e)
 
